@@ -59,19 +59,25 @@ def p_config(chk):
 
 
 def p_unicode(chk):
-    """cap(s) = s[:1].upper() + s[1:] is idempotent, str.strip() is idempotent: validated
-    for every code point / every single character"""
-    bad = []
+    """the real NsHandler.maybe_capitalize of a first-letter site, on every code point followed by 'x':
+    idempotent, changes at most the first character, never the length"""
+    from mwlib.core import nshandling
+    h = nshandling.get_nshandler_for_lang("en")
+    bad, longer = [], []
     for cp in range(0x110000):
-        c = chr(cp)
         if 0xD800 <= cp <= 0xDFFF:
             continue
-        once = c[0:1].upper() + c[1:]
-        twice = once[0:1].upper() + once[1:]
-        if once != twice:
+        t = chr(cp) + "x"
+        once = h.maybe_capitalize(t)
+        if h.maybe_capitalize(once) != once:
             bad.append(cp)
+        if len(once) != len(t) or once[1:] != t[1:]:
+            longer.append(cp)
     chk.static("unicode.first_letter_capitalisation_is_idempotent", not bad,
                f"checked 1112064 code points; not idempotent: {[hex(b) for b in bad[:8]]}")
+    chk.static("unicode.first_letter_capitalisation_keeps_the_rest_of_the_title", not longer,
+               f"code points whose capitalisation changes the length / the rest of the title: {[hex(b) for b in longer[:8]]} ({len(longer)} in all)",
+               witness={"title": (chr(longer[0]) + "x") if longer else None}, witness_class="capitalisation_changes_length", reproduced=True)
 
 
 # ----------------------------------------------------------------------------- bounded contract
@@ -80,7 +86,7 @@ def titles_for(si, maxlen):
     names = [ns["1"]["*"], ns["14"]["*"].upper(), ns["10"].get("canonical", ns["10"]["*"]).lower()]
     if si.get("namespacealiases"):
         names.append(si["namespacealiases"][0]["*"])
-    alpha = ["a", "B", " ", "_", ":", "‎", "ä"] + names
+    alpha = ["a", "B", " ", "_", ":", "‎", "ä", "ß"] + names
     for n in range(1, maxlen + 1):
         for t in itertools.product(alpha, repeat=n):
             yield "".join(t)
@@ -127,8 +133,16 @@ def contract(h, si, title, defaultns):
         return f"full name {full!r} is not canonical"
     if partial != partial.strip() or partial.strip(MARKS) != partial:
         return f"partial {partial!r} has edge whitespace/marks"
-    if si["general"].get("case") == "first-letter" and partial and partial[:1].upper() != partial[:1]:
+    if si["general"].get("case") == "first-letter" and partial and partial[:1].upper() != partial[:1] and len(partial[:1].upper()) == 1:
         return f"partial {partial!r} not capitalised"
+    # capitalising the first letter yields the SAME title with one letter changed: it never changes the length
+    # (characters without a one-character upper case - sharp s - are canonical as they are on the wiki)
+    body = lead.split(":", 1)[1] if (":" in lead and " ".join(lead.split(":", 1)[0].split()).lower() in table) else lead
+    body = body.strip(" " + MARKS)
+    while "  " in body:
+        body = body.replace("  ", " ")
+    if len(partial) != len(body) or partial[1:] != body[1:]:
+        return f"partial {partial!r} is not the title text {body!r} with its first letter capitalised"
     for d2 in (0, 1, 10, 14, defaultns):
         if str(d2) in ns and h.splitname(full, d2) != r and not (nsnum == 0 and d2 != 0):
             # a main-namespace name carries no prefix, so it is re-read in the default namespace by
